@@ -27,6 +27,9 @@ def scratch():
     tmp = tempfile.mkdtemp(prefix="olseed-")
     copy = os.path.join(tmp, "repo")
     sh(["git", "clone", "-q", "--no-hardlinks", REPO, copy])
+    if os.environ.get("SEED_BASE"):
+        # a seeded change whose context was later changed by a fix: commit in /repo is evaluated on the commit it was written for
+        sh(["git", "-C", copy, "checkout", "-q", os.environ["SEED_BASE"]])
     return tmp, copy
 
 
@@ -84,7 +87,7 @@ def cmd_run(name, checks):
                 if l.startswith("VIOLATION"):
                     first = "\n".join(lines[i:i + 2])[:500]
                     break
-            res[c] = {"tier": "quick", "exit": r.returncode, "violation_lines": len(viol), "first": first,
+            res[c] = {"tier": "quick", "exit": r.returncode, "violation_lines": len(viol), "first": first, "base": os.environ.get("SEED_BASE") or "HEAD",
                       "summary": (lines[-1] if lines else r.stderr[-200:])[:300], "wall_s": round(time.time() - t0, 1)}
         meta["caught_by"] = sorted(c for c, v in res.items() if v["exit"] == 1 and v["violation_lines"])
         meta["what_was_run"] = "tools/seeded.py run %s %s (scratch clone of /repo HEAD %s + patch, OLVERIF_REPO)" % (name, " ".join(checks), base_head)
